@@ -132,7 +132,7 @@ function inject(rng, fs_, st) {
       return f && { text: M.printFile(f, { ...st, shuffleAttrs: false }), kind, site: 'element <' + t.tag + '> + ' + extra.map((a) => M.attrSourceName(a)).join(',') }
     }
     case 'children-not-allowed': {
-      const raw = rng.pick(['<include src="x"><a/></include>', '<import src="x">t</import>', '<slot name="s"><a/></slot>', '<template is="t"><a/></template>', '<slot>text</slot>', '<include src="x">{{a}}</include>'])
+      const raw = rng.pick(['<slot name="footer"><!-- default --><view>fallback</view></slot>', '<include src="x"><!-- c -->text</include>', '<template is="t"> <!-- c --> <a/></template>', '<include src="x"><a/></include>', '<import src="x">t</import>', '<slot name="s"><a/></slot>', '<template is="t"><a/></template>', '<slot>text</slot>', '<include src="x">{{a}}</include>'])
       const l = rng.pick(lists)
       const f = clone(file)
       f.children = [...f.children, { t: 'raw', wxml: raw }]
